@@ -35,6 +35,9 @@ SimdElems == {"f32", "f64"}
 Dirs      == {"F", "I"}
 Entries   == {"process", "inplace", "oop", "immut"}
 
+\* faithful-layer mismatch: counted and printed, never a violation
+DriftIf(mismatch, what) == IF mismatch THEN (IF PrintT(<<"DRIFT", what>>) THEN 1 ELSE 1) ELSE 0
+
 On(p) == Prop = p \/ Prop = "ALL"
 OnAny(S) == Prop \in S \/ Prop = "ALL"
 
@@ -109,7 +112,6 @@ ObsOk(o, c, inst) ==
       [] o.kind = "transformed" -> \A ch \in 1..Len(o.by_chunk) : o.by_chunk[ch]
       [] o.kind = "ops"         -> OpsOk(o, inst)
       [] o.kind = "identity"    -> o.equal
-      [] o.kind = "ring"        -> o.non_ring = 0 /\ o.tags_ok
       [] o.kind = "hash"        -> TRUE          \* judged against refs in CallEnd
       [] OTHER -> FALSE
 
@@ -153,7 +155,7 @@ NewPlanner(pid, kind, elem, result, backend) ==
     /\ IF result = "ok"
        THEN /\ planners' = planners @@ (pid :> [kind |-> kind, elem |-> elem, backend |-> backend, alive |-> TRUE])
             /\ cache' = cache @@ (pid :> {})
-            /\ drift' = drift + (IF backend = ExpectedBackend(kind, elem, cfg) THEN 0 ELSE 1)
+            /\ drift' = drift + DriftIf(backend # ExpectedBackend(kind, elem, cfg), <<"backend", kind, elem, backend>>)
        ELSE UNCHANGED <<planners, cache, drift>>
     /\ UNCHANGED <<cfg, insts, planning, pending, refs>>
 
@@ -174,7 +176,7 @@ PlanBegin(pid, n, dir) ==
 CacheGet(len, dir, hit) ==
     /\ planning # << >>
     /\ LET pid == planning[1].pid IN
-       drift' = drift + (IF hit = (<<len, dir>> \in cache[pid]) THEN 0 ELSE 1)
+       drift' = drift + DriftIf(hit # (<<len, dir>> \in cache[pid]), <<"cache-get", pid, len, dir, hit>>)
     /\ UNCHANGED <<cfg, planners, cache, insts, planning, pending, refs>>
 
 CacheInsert(len, dir) ==
@@ -186,7 +188,7 @@ ScratchBoundOk(len, scr) == \A e \in 1..3 : scr[e] <= 12 * len + 64          \* 
 
 Build(kind, len, dir, scr) ==
     /\ planning # << >>
-    /\ drift' = drift + (IF dir = planning[1].dir /\ ScratchBoundOk(len, scr) THEN 0 ELSE 1)
+    /\ drift' = drift + DriftIf(~(dir = planning[1].dir /\ ScratchBoundOk(len, scr)), <<"build", kind, len, dir, scr>>)
     /\ UNCHANGED <<cfg, planners, cache, insts, planning, pending, refs>>
 
 \* C04 (+ C05 scratch clause): what plan_fft must return
@@ -209,7 +211,7 @@ PlanReport(pid, n, dir, outcome, tree) ==
     /\ planning = << >>
     /\ outcome = "ok"
     /\ On("C05") /\ Known(tree) /\ Shaped(tree) => NoNaiveAbove32(tree)
-    /\ drift' = drift + (IF Known(tree) /\ WellFormed(tree) /\ TreeLen(tree) = n THEN 0 ELSE 1)
+    /\ drift' = drift + DriftIf(~(Known(tree) /\ WellFormed(tree) /\ TreeLen(tree) = n), <<"plan-report", n, dir>>)
     /\ UNCHANGED <<cfg, planners, cache, insts, planning, pending, refs>>
 
 \* a transform assembled by the client from the public constructors (C12); never panics within preconditions
@@ -219,6 +221,14 @@ Construct(iid, elem, outcome, n, dir, len, rdir, scr) ==
     /\ insts' = insts @@ (iid :> [pid |-> 0, kind |-> "ctor", elem |-> elem, n |-> n, dir |-> dir,
                                   len |-> len, rdir |-> rdir, scr |-> scr])
     /\ UNCHANGED <<cfg, planners, cache, planning, pending, refs, drift>>
+
+\* C14: generic code may use only ring operations of the element type (and constants converted from f64);
+\* values of a type whose size differs from f32/f64 are never re-typed (their padding survives)
+ElemReport(elem, non_ring, tags_ok) ==
+    /\ elem \in Elems
+    /\ non_ring = 0
+    /\ tags_ok
+    /\ UNCHANGED vars
 
 CallBegin(cid, iid, entry, data, out, scratch, inh) ==
     /\ cid \notin DOMAIN pending
